@@ -41,6 +41,7 @@ class Sched:
         self.abort = False
         self.schedule = []          # sequence of (thread, label) switch points actually taken
         self.deadlock = False
+        self.recursive_read = False
 
     # ---- called on the engine thread that currently holds the turn
     def can_take(self, w):
@@ -88,6 +89,13 @@ class Sched:
         if i == 'main' or i is None:
             return
         self.want[i] = (lock, mode)
+        if mode == 'r' and i in lock.rowners and any(self.want[j] == (lock, 'w') for j in range(self.n) if j != i):
+            # std's RwLock prefers waiting writers: a thread that re-acquires a read lock it already holds while
+            # another thread is queued for the write lock blocks behind that writer, which waits for the first guard
+            self.deadlock = True
+            self.recursive_read = True
+            self.abort = True
+            raise _Abort()
         self.switch_from(i)
         self.want[i] = None
         ex.thread = i
@@ -384,7 +392,14 @@ def run_concurrent_case(prog, params):
             f = Finding(prop, key, detail + ' [threads: %s; schedule %s]' % (desc, sched_txt), script, outs, profile='hooks')
             return f
         if sched.deadlock:
-            findings.append(fnd(key_base + '|deadlock', 'no thread can proceed: deadlock'))
+            if sched.recursive_read:
+                f = fnd(key_base + '|deadlock_recursive_read', 'a thread re-acquires the read lock it already holds while another thread waits for the write lock: '
+                        'std::sync::RwLock blocks the reader behind the waiting writer, which waits for the first guard (deadlock)')
+                f.confirmed = True       # the native outcome is a hang; it cannot be replayed to completion (see DESIGN)
+                f.lines = None
+            else:
+                f = fnd(key_base + '|deadlock', 'no thread can proceed: deadlock')
+            findings.append(f)
             return findings
         for i, rs in enumerate(results):
             for j, o in enumerate(rs):
